@@ -103,6 +103,10 @@ func Assert(c bool, label string) {
 }
 func Reach(label string)  {}
 
+// ExploreSchedules switches schedule exploration on or off (engine only);
+// while off, goroutines run first-in first-out at blocking points.
+func ExploreSchedules(on bool) {}
+
 // Hang marks a point that blocks forever (engine: a "hang" violation).
 func Hang(label string) { select {} }
 func Concrete(x int) int  { return x }
